@@ -202,7 +202,7 @@ def check(run):
             run.findings.append(Finding(ob.name, "Model::model", f"plain model, shape {shp}: {p}", {"language": "c++", "inputs": {"shape": list(shp), "seed": run.seed + 5 + 31 * t, "cse": True, "ekf": False}}, True))
     # plain model with a WRAPPED quantity (Mod(v, 3), no Jacobians involved): sympy's Mod and Python's % take the sign of the divisor, C's
     # fmod the sign of the dividend - the generated statement must have the value of the symbolic expression for negative operands too
-    wm = scenarios.Scenario(2, 0, 1, [1], seed=run.seed + 11, wrapped=True)
+    wm = scenarios.Scenario(2, 0, 1, [1], seed=run.seed + 11, wrapped="negative")
     for cse in (True, False):
         programs += 1
         probs, header, source = G.validate_program(run, wm, f"wrapped_model.cse_{'on' if cse else 'off'}", cse=cse, ekf=False, prefix="C02")
@@ -227,7 +227,7 @@ def replay_file(payload):
         return True
     shp = inp["shape"]
     if inp.get("wrapped_model"):
-        wm = scenarios.Scenario(shp[0], shp[1], shp[2], shp[3], seed=inp["seed"], wrapped=True)
+        wm = scenarios.Scenario(shp[0], shp[1], shp[2], shp[3], seed=inp["seed"], wrapped="negative")
         run = driver.PropertyRun("C02", "quick", 0)
         probs, h, s2 = G.validate_program(run, wm, "replay", cse=inp.get("cse", True), ekf=False)
         print("replay C02 (plain model with a wrapped quantity):", [p for _, p in probs[:3]] or "generated statements have the value of the symbolic expressions, also for negative operands")
